@@ -389,10 +389,16 @@ def instances(tier, seed):
                 if tier == "quick" and rng.random() < 0.6:
                     continue
                 items.append(("lift", {"n": n, "gid": f"K{k}", "idx": list(idx), "label": f"K{k}{idx} n={n}"}))
-    if tier == "thorough":
-        for idx in [(0, 1, 2, 3), (3, 1, 0, 2), (2, 3, 1, 0)]:
-            items.append(("lift", {"n": 4, "gid": "SG4", "idx": list(idx), "label": f"SG4{idx} n=4"}))
-            items.append(("lift", {"n": 5, "gid": "SG4", "idx": [i + 1 if i >= 1 else i for i in idx], "label": f"SG4{idx}-gap n=5"}))
+    # arity 4: sparse generic gate (symbolic) and constant controlled gates (numpy path) on permuted tuples
+    perms4 = list(itertools.permutations(range(4)))
+    chosen = perms4 if tier == "thorough" else [(0, 1, 2, 3), (0, 2, 1, 3), (3, 1, 0, 2), (2, 3, 1, 0), (1, 0, 3, 2)] + rng.sample(perms4, 3)
+    for idx in chosen:
+        items.append(("lift", {"n": 4, "gid": "SG4", "idx": list(idx), "label": f"SG4{idx} n=4"}))
+    for idx in ([(1, 3, 2, 4), (4, 0, 2, 1)] if tier == "quick" else [(1, 3, 2, 4), (4, 0, 2, 1), (0, 2, 3, 4), (3, 4, 1, 0)]):
+        items.append(("lift", {"n": 5, "gid": "SG4", "idx": list(idx), "label": f"SG4{idx} n=5"}))
+    for gid in ("SWAP|c2", "K2|c2", "K1|c3"):
+        for idx in ([(0, 2, 1, 3), (2, 0, 3, 1)] if tier == "quick" else perms4[::3]):
+            items.append(("lift", {"n": 4, "gid": gid, "idx": list(idx), "label": f"{gid}{idx} n=4"}))
     # 2. circuits
     fixed = [
         (3, [("G1", (0,)), ("CNOT", (0, 2)), ("G2", (2, 1))], True),
@@ -468,6 +474,10 @@ def instances(tier, seed):
         ([("G2", (0, 1))], 3, [("G1", (0,))], None, True),
         ([], None, [("G2", (1, 0))], 2, False),
         ([("RZ(th0)", (0,))], 4, [("K2", (1, 0))], 2, False),
+        ([("G1", (0,))], 1, [("G1", (1,))], 4, False),
+        ([("RX(th0)", (0,))], None, [("H", (1,))], 4, False),
+        ([("G1", (1,))], 3, [("G1", (0,))], 3, False),
+        ([("G1", (0,))], 2, [], 3, False),
     ]
     for s1, n1, s2, n2, isop in adds:
         items.append(("add", {"s1": [list(map(_l, s)) for s in s1], "n1": n1, "s2": [list(map(_l, s)) for s in s2], "n2": n2, "op": isop, "label": f"[{CS.spec_str(s1)}]n={n1} + [{CS.spec_str(s2)}]n={n2}{' (op)' if isop else ''}"}))
